@@ -358,6 +358,12 @@ class Negative(Term):
         yield self  # type:ignore[misc]
         yield from self.term.nodes_()
 
+    @builder
+    def replace_table(  # type:ignore[return]
+        self, current_table: "Table" | None, new_table: "Table" | None
+    ) -> "Self":
+        self.term = self.term.replace_table(current_table, new_table)
+
     @property
     def is_aggregate(self) -> bool | None:  # type:ignore[override]
         return self.term.is_aggregate
@@ -558,6 +564,12 @@ class Values(Term):
     def nodes_(self) -> Iterator[NodeT]:
         yield self  # type:ignore[misc]
         yield from self.field.nodes_()
+
+    @builder
+    def replace_table(  # type:ignore[return]
+        self, current_table: "Table" | None, new_table: "Table" | None
+    ) -> "Self":
+        self.field = self.field.replace_table(current_table, new_table)
 
     def get_sql(self, ctx: SqlContext) -> str:
         return "VALUES({value})".format(value=self.field.get_sql(ctx))
@@ -1019,6 +1031,14 @@ class BetweenCriterion(RangeCriterion):
 
 
 class PeriodCriterion(RangeCriterion):
+    @builder
+    def replace_table(  # type:ignore[return]
+        self, current_table: "Table" | None, new_table: "Table" | None
+    ) -> "Self":
+        self.term = self.term.replace_table(current_table, new_table)
+        self.start = self.start.replace_table(current_table, new_table)
+        self.end = self.end.replace_table(current_table, new_table)
+
     def get_sql(self, ctx: SqlContext) -> str:
         sql = "{term} FROM {start} TO {end}".format(
             term=self.term.get_sql(ctx),
@@ -1376,6 +1396,12 @@ class All(Criterion):
     def nodes_(self) -> Iterator[NodeT]:
         yield self  # type:ignore[misc]
         yield from self.term.nodes_()
+
+    @builder
+    def replace_table(  # type:ignore[return]
+        self, current_table: "Table" | None, new_table: "Table" | None
+    ) -> "Self":
+        self.term = self.term.replace_table(current_table, new_table)
 
     def get_sql(self, ctx: SqlContext) -> str:
         sql = "{term} ALL".format(term=self.term.get_sql(ctx))
@@ -1816,6 +1842,12 @@ class AtTimezone(Term):
     def nodes_(self) -> Iterator[NodeT]:
         yield self  # type:ignore[misc]
         yield from self.field.nodes_()
+
+    @builder
+    def replace_table(  # type:ignore[return]
+        self, current_table: "Table" | None, new_table: "Table" | None
+    ) -> "Self":
+        self.field = self.field.replace_table(current_table, new_table)
 
     def get_sql(self, ctx: SqlContext) -> str:
         sql = "{name} AT TIME ZONE {interval}'{zone}'".format(
